@@ -33,6 +33,7 @@ type matcherIn struct {
 }
 
 type dockerIn struct {
+	Tag     int         `json:"tag,omitempty"` // shape linefmt: a number written into the template text
 	Ctrs    []FakeCtr   `json:"ctrs"`
 	Sel     []matcherIn `json:"sel"`
 	Sel2    []matcherIn `json:"sel2"`
@@ -79,6 +80,10 @@ func (in *dockerIn) query() string {
 	case "jsondup":
 		// several labels drawn from one JSON path (objects, arrays, scalars): every one of them exists in every run
 		return sel + " | json req=\"request\", raw=\"request\", m=\"request.method\", m2=\"request.method\", tags=\"tags\", t2=\"tags\", t3=\"tags\""
+	case "linefmt":
+		// a template over the line and the instant of the record at hand: every run prints its own records
+		// (the text differs from case to case: a template compiled for one evaluation serves that evaluation)
+		return sel + fmt.Sprintf(" | line_format \"{{__line__}}|{{.container}}|{{__timestamp__ | unixEpochNanos}}|%d\" | label_format l=\"{{__line__}}%d\"", in.Tag, in.Tag)
 	case "logkv":
 		// lines whose keys differ only in characters that label names cannot carry (a.b, a_b): what each entry's labels
 		// are must not depend on the order a map is walked in
@@ -589,7 +594,7 @@ func allPerms(n int) [][]int {
 
 func genDeterminism(r *rand.Rand) dockerIn {
 	in := baseIn()
-	in.Shape = []string{"log", "count", "sumcount", "log", "sumdep", "maxnan", "logkv", "rangeby", "jsondup", "jsondup"}[r.Intn(10)]
+	in.Shape = []string{"log", "count", "sumcount", "log", "sumdep", "maxnan", "logkv", "rangeby", "jsondup", "jsondup", "linefmt", "linefmt"}[r.Intn(12)]
 	in.Start, in.End, in.Step, in.Range = []int{1700000000, 0}, []int{1700000060, 0}, 20, 600
 	nc := 2 + r.Intn(4)
 	sec := 1700000001
@@ -614,6 +619,9 @@ func genDeterminism(r *rand.Rand) dockerIn {
 				in.Ctrs[c].Frames[j].Msg = B(fmt.Sprintf("v=%d k=%d j=%d", 1+j, c%2, j%2))
 			}
 		}
+	} else if in.Shape == "linefmt" {
+		in.Tag = 1 + r.Intn(1000000)
+		in.Reps = 3
 	} else if in.Shape == "jsondup" {
 		for c := range in.Ctrs {
 			for j := range in.Ctrs[c].Frames {
